@@ -43,6 +43,22 @@ Theorem C15_header_to_answer :
 Proof. exact header_answer_ok. Qed.
 Print Assumptions C15_header_to_answer.
 
+(* The converse, for EVERY header string: whatever the code's parser accepts - inside the
+   strict grammar or not (it is lenient: "bytes=+1-2", "xbytes=1-2") - is a well-formed
+   single range, so no header can make setRangedHeaders / sendBody work with a negative start,
+   an end before the start, or a positive "suffix". *)
+Theorem C15_accepted_headers_are_wellformed :
+  forall h rr, get_range h = Some rr -> exists r, wellformed r /\ rr = to_rr r.
+Proof. exact get_range_is_wellformed. Qed.
+Print Assumptions C15_accepted_headers_are_wellformed.
+
+(* ... and is therefore answered as that range must be: exact 206, complete 200, or 416. *)
+Theorem C15_any_accepted_header_to_answer :
+  forall h rr resource, get_range h = Some rr ->
+    exists r a, wellformed r /\ rr = to_rr r /\ range_answer rr resource = Some a /\ answer_ok r resource a = true.
+Proof. exact accepted_header_answer_ok. Qed.
+Print Assumptions C15_any_accepted_header_to_answer.
+
 (* tests (not theorems): getRange on the three canonical spellings *)
 Example C15_parse_samples :
   map get_range [bytes "bytes=2-5"; bytes "bytes=7-"; bytes "bytes=-3"; bytes "bytes=5-2"; bytes "bytes=1-2,4-5"]
